@@ -1,6 +1,8 @@
 import QibProofs.Lemmas.QubitizationMat
 import QibProofs.Lemmas.Embed
 import QibProofs.Lemmas.GateAlgebra
+import QibGen.GatesReal
+import Mathlib.Tactic.FinCases
 import Mathlib.Data.Fin.SuccPred
 import Mathlib.Data.Fin.Tuple.Basic
 /-!
@@ -131,6 +133,24 @@ theorem actMat_ctrlAct (u : Bool → Bool × ℝ) :
 
 end Bridge
 
+/-- distinct in-range control and target labels are the image of a wire placement -/
+theorem placement_exists (n : ℕ) (cs : List ℕ) (t : ℕ) (hnd : (cs ++ [t]).Nodup) (hlt : ∀ e ∈ cs ++ [t], e < n) :
+    ∃ iw : Fin (cs.length + 1) ↪ Fin n, ctrlLabels iw = cs ∧ tgtLabel iw = t := by
+  have hl : (cs ++ [t]).length = cs.length + 1 := by simp
+  let f : Fin (cs.length + 1) → Fin n := fun j => ⟨(cs ++ [t])[j.1]'(by rw [hl]; exact j.2), hlt _ (List.getElem_mem _)⟩
+  have hinj : Function.Injective f := by
+    intro a b hab
+    have h1 : (cs ++ [t])[a.1]'(by rw [hl]; exact a.2) = (cs ++ [t])[b.1]'(by rw [hl]; exact b.2) := congrArg Fin.val hab
+    exact Fin.ext ((hnd.getElem_inj_iff).mp h1)
+  refine ⟨⟨f, hinj⟩, ?_, ?_⟩
+  · apply List.ext_getElem
+    · simp [ctrlLabels]
+    · intro j h1 h2
+      simp only [ctrlLabels, List.getElem_ofFn, Function.Embedding.coeFn_mk, f, Fin.val_castSucc]
+      exact List.getElem_append_left h2
+  · simp only [tgtLabel, Function.Embedding.coeFn_mk, f, Fin.val_last]
+    simp
+
 /-! ### the emitted gates as controlled actions -/
 
 theorem flipBit_eq_update (bits : ℕ → Bool) (t : ℕ) : flipBit bits t = Function.update bits t (!bits t) := by
@@ -164,5 +184,38 @@ theorem act_crz (a : ℝ) (ctrls : List ℕ) (t : ℕ) :
 theorem act_rz (a : ℝ) (t : ℕ) : (GateDesc.rz a t : GateDesc ℝ).act = ctrlAct [] t (fun b => (b, rzPhase a b)) := by
   funext bits
   simp only [GateDesc.act, ctrlAct, if_pos (allZero_nil bits), Function.update_eq_self]
+
+/-! ### the generated closed forms as actions -/
+
+open QibGen in
+/-- `Rz(a)` (definition regenerated from `gates.py`) multiplies `|b⟩` by `e^{i·rzPhase a b}` -/
+theorem rz_generated (a : ℝ) :
+    RzGate.mat a = !![Complex.exp (I * (rzPhase a false : ℝ)), 0; 0, Complex.exp (I * (rzPhase a true : ℝ))] := by
+  simp only [RzGate.mat, rzPhase]
+  have e : (((1 : ℝ) : ℂ) * I) * ((a : ℝ) : ℂ) / (((2 : ℝ) : ℝ) : ℂ) = I * ((a / 2 : ℝ) : ℂ) := by push_cast; ring
+  rw [e]
+  have hc : starRingEnd ℂ (Complex.exp (I * ((a / 2 : ℝ) : ℂ))) = Complex.exp (I * ((-(a / 2) : ℝ) : ℂ)) := by
+    rw [← Complex.exp_conj]; congr 1
+    rw [map_mul, Complex.conj_I, Complex.conj_ofReal]; push_cast; ring
+  rw [hc]
+  ext i j; fin_cases i <;> fin_cases j <;> simp
+
+open QibGen in
+theorem x_generated : PauliXGate.mat = !![0, 1; 1, 0] := by
+  simp only [PauliXGate.mat]; ext i j; fin_cases i <;> fin_cases j <;> simp
+
+open QibGen in
+theorem phase_generated (φ : ℝ) (k : ℕ) : PhaseFactorGate.mat φ k = Complex.exp (I * φ) • 1 := by
+  simp only [PhaseFactorGate.mat]; congr 1; simp
+
+open QibGen in
+theorem monoMat_flip : monoMat (fun b => (!b, (0 : ℝ))) = PauliXGate.mat := by
+  rw [x_generated]
+  ext i j; fin_cases i <;> fin_cases j <;> simp [monoMat, b2f]
+
+open QibGen in
+theorem monoMat_rz (a : ℝ) : monoMat (fun b => (b, rzPhase a b)) = RzGate.mat a := by
+  rw [rz_generated]
+  ext i j; fin_cases i <;> fin_cases j <;> simp [monoMat, b2f]
 
 end Qib.Qubitization
